@@ -4,7 +4,8 @@ from vlib import Chars, cps, TlaSet
 
 # delimiter pool (C07/C08/C01/C18): with / without self-overlap, multi-byte, identical, space-containing
 PAIRS = [("<", ">"), ("<!-- <", "> -->"), ("/* <", "> */"), ("// --", "-- //"), ("aab", "bba"), ("%%", "%%"),
-         ("„Ää", "„Äã"), ("<<", ">>"), (" <", " >"), ("-->", "<!--"), ("„ÅÇ„ÅÇ„ÅÑ", "„ÅÑ„ÅÑ„ÅÇ"), ("√©√©-", "-√©√©")]
+         ("„Ää", "„Äã"), ("<<", ">>"), (" <", " >"), ("-->", "<!--"), ("„ÅÇ„ÅÇ„ÅÑ", "„ÅÑ„ÅÑ„ÅÇ"), ("√©√©-", "-√©√©"),
+         ("aabaac", "-- -->")]          # borders within borders: the fallback has to walk the whole failure chain
 
 
 HARD_PAIRS = [("„ÅÇ„ÅÇ„ÅÑ", "„ÅÑ„ÅÑ„ÅÇ"), ("√©√©-", "-√©√©"), ("‚Äª‚Äª <", "> ‚Äª")]
@@ -90,7 +91,7 @@ def atoms_jobs(ctx, invariants, ops, nontrivial, pairs=None, extra=("a", " ", "√
     pool = pairs or [p for p in PAIRS if len(p[0]) > 1]
     if ctx.quick:
         k = ctx.seed % len(pool)
-        fixed = [("<!-- <", "> -->"), ("„ÅÇ„ÅÇ„ÅÑ", "„ÅÑ„ÅÑ„ÅÇ")]        # a long ASCII pair and a multi-byte self-overlapping pair, always
+        fixed = [("<!-- <", "> -->"), ("„ÅÇ„ÅÇ„ÅÑ", "„ÅÑ„ÅÑ„ÅÇ"), ("aabaac", "-- -->")]   # a long ASCII pair, a multi-byte self-overlapping pair, nested borders: always
         pool = fixed + [p for p in (pool[k:] + pool[:k]) if p not in fixed][:2]
     for (ds, de) in pool:
         atoms = delim_atoms(ds, de, extra)
@@ -159,6 +160,9 @@ def check_C01(ctx):
     ops = [{"op": "clean"}, {"op": "list"}, {"op": "list_json"}, {"op": "list_all"}, {"op": "list_all_json"}]
     q = ctx.quick
     chars_jobs(ctx, ["Inv_C01"], ops, None, pairs_quick=1 if q else 4, shorter=0 if q else 1)   # five operations per string
+    # the characters of the tag grammar themselves: bodies beginning with '=', quotes in every position
+    ctx.job("chars-grammar", gens=[{"base": "GenChars", "consts": {"Alphabet": Chars("<>=\"x "), "N": 6 if q else 7}}],
+            invariants=["Inv_C01"], ops=ops, cfg={"ds": "<", "de": ">"}, nontrivial=None)
     # tags built from atoms: blank bodies, stray delimiters, elements with every kind of attribute, multi-byte ends
     for (ds, de) in ([("<", ">"), ("„Ää", "„Äã")] if q else [("<", ">"), ("„Ää", "„Äã"), ("<!-- <", "> -->"), ("%%", "%%"), (" <", " >")]):
         atoms = [ds, de, ds + "rm name='a'" + de, ds + "rm name='a' unwrap-block" + de, ds + "/rm" + de,
@@ -189,16 +193,16 @@ K = {"T1": ["T1", False], "T2": ["T2", False], "T3": ["T3", False], "T1u": ["T1"
      "M1": ["M1", False], "M2": ["M2", False], "M3": ["M3", False], "M1u": ["M1", True], "M2u": ["M2", True],
      "R": ["R", False], "P": ["P", False], "S": ["S", False], "U": ["U", False], "T": ["T", False], "F": ["F", False],
      "Ru": ["R", True], "Pu": ["P", True], "Tu": ["T", True], "Su": ["S", True],
-     "SP": ["SP", False], "SF": ["SF", False], "SPu": ["SP", True]}
+     "SP": ["SP", False], "SF": ["SF", False], "SPu": ["SP", True], "NV": ["NV", False], "NN": ["NN", False], "NVu": ["NV", True]}
 
 
 def lines_gen(L, D, E, kinds, unit="  ", base=0, free=(), ws=(), blank=True, suffix="", simulate=None, code_a="", code_b="",
-              mb=False, max_code=99, empty_default=False, pairs=False, preamble=0, inline=False, pair_kind="R", eol="\n", tag_sep=" ", flag_val="", quote="'", flags_first=False, tail=False, pad="", wide=False, free_tags=True, tail_kinds=None):
+              mb=False, max_code=99, empty_default=False, pairs=False, preamble=0, inline=False, pair_kind="R", eol="\n", tag_sep=" ", flag_val="", quote="'", flags_first=False, tail=False, pad="", wide=False, free_tags=True, tail_kinds=None, crossing=False, free_code=True):
     from vlib import TlaSet
     g = {"base": "GenLines", "constraint": "Feasible",
          "consts": {"L": L, "D": D, "E": E, "Kinds": TlaSet([K[k] for k in kinds]), "Unit": Chars(unit), "Base": base,
-                    "FreeInd": TlaSet(list(free)), "FreeTags": free_tags, "WsLens": TlaSet(list(ws)), "Blank": blank, "Suffix": Chars(suffix), "CodeA": Chars(code_a), "CodeB": Chars(code_b), "MbCode": mb, "MaxCode": max_code, "EmptyDefault": empty_default, "PairLines": pairs, "Preamble": preamble,
-                    "InlineTags": inline, "PairKind": K[pair_kind], "EOL": Chars(eol), "TagSep": Chars(tag_sep), "FlagVal": Chars(flag_val), "QuoteCh": ord(quote), "FlagsFirst": flags_first, "TailElems": tail, "TailKinds": TlaSet([K[k] for k in (tail_kinds or kinds)]), "TagPad": Chars(pad), "WideCode": wide,
+                    "FreeInd": TlaSet(list(free)), "FreeTags": free_tags, "FreeCode": free_code, "WsLens": TlaSet(list(ws)), "Blank": blank, "Suffix": Chars(suffix), "CodeA": Chars(code_a), "CodeB": Chars(code_b), "MbCode": mb, "MaxCode": max_code, "EmptyDefault": empty_default, "PairLines": pairs, "Preamble": preamble,
+                    "InlineTags": inline, "PairKind": K[pair_kind], "EOL": Chars(eol), "TagSep": Chars(tag_sep), "FlagVal": Chars(flag_val), "QuoteCh": ord(quote), "FlagsFirst": flags_first, "Crossing": crossing, "TailElems": tail, "TailKinds": TlaSet([K[k] for k in (tail_kinds or kinds)]), "TagPad": Chars(pad), "WideCode": wide,
                     "PastTo": Chars(PAST), "FutureTo": Chars(FUTURE),
                     "Tos": [Chars(t) for t in TOS], "Names": [Chars(n) for n in MNAMES]}}
     if simulate:
@@ -251,6 +255,8 @@ def block_jobs(ctx, invariants, ops, lite=False):
                 lines_gen(4, 2, 2, ["R", "S", "T"], blank=False, quote='"', flags_first=True),
                 lines_gen(4, 2, 2, ["R", "P"], blank=True, tail=True, max_code=2),                      # elements behind code on one line
                 lines_gen(5, 1, 1, ["R"], blank=True, wide=True, max_code=2),                           # lines of wide blanks (U+3000, NBSP) only
+                lines_gen(6, 2, 3, ["R", "F", "P"], blank=False, crossing=True, max_code=1),            # crossing regions: <a> <b> </a> </b>
+                dict(lines_gen(4, 2, 2, ["NV", "NN", "R"], blank=False), cfg={"targets": ["a", ""]}),   # valueless names, "" among the targets
                 lines_gen(4, 2, 2, ["R", "P"], blank=False, pad=" "),                                   # padded tags: <tag a='b' >
                 lines_gen(14, 3, 5, ["R", "P", "S", "SP", "SF", "U", "T", "F"], ws=(2,), base=ctx.seed % 2, simulate=(15 if lite else 80, 14)),
                 kitchen_sink(ctx, ["R", "P", "S", "U", "T", "F"], 12, 10 if lite else 40),
@@ -266,6 +272,8 @@ def block_jobs(ctx, invariants, ops, lite=False):
         ("block-sim", [lines_gen(14, 3, 5, ["R", "P", "S", "SP", "SF", "U", "T", "F"], ws=(2,), base=ctx.seed % 2, simulate=(5000, 14)),
                        kitchen_sink(ctx, ["R", "P", "S", "U", "T", "F"], 14, 2000)]),
         ("block-html", [dict(lines_gen(7, 2, 2, ["R", "P", "T"], ws=(2,)), cfg=html)]),
+        ("block-crossing", [lines_gen(8, 3, 3, ["R", "P", "T"], blank=False, crossing=True, max_code=3)]),
+        ("block-valueless-names", [dict(lines_gen(6, 2, 2, ["NV", "NN", "R", "NVu"], blank=False), cfg={"targets": ["a", ""]})]),
         ("block-wide-blanks", [lines_gen(7, 1, 2, ["R"], blank=True, wide=True, max_code=3), lines_gen(6, 2, 2, ["R", "P"], base=1, ws=(1,), wide=True)]),
         ("block-padded-tags", [lines_gen(6, 2, 2, ["R", "P", "T"], blank=False, pad=" "), lines_gen(6, 2, 2, ["R", "P"], pad="  ")]),
         ("block-tail-elements", [lines_gen(7, 2, 2, ["R", "P"], blank=True, tail=True, max_code=3)]),
@@ -305,6 +313,7 @@ def unwrap_jobs(ctx, invariants, ops, lite=False):
                 lines_gen(6, 2, 2, ["Ru", "Tu", "P"], free=(1,), blank=False, quote='"', flags_first=True),   # flags first, double quotes
                 lines_gen(6, 2, 2, ["Ru", "R"], blank=False, tail=True, max_code=2),
                 lines_gen(6, 2, 2, ["Ru", "P"], blank=False, pad=" "),
+                dict(lines_gen(10, 2, 2, ["Ru"], blank=False, free=(0,), free_code=False, max_code=6), constraint="FeasibleU"),   # nested blocks, tags in the same column
                 lines_gen(16, 3, 4, ["Ru", "R", "P", "Pu", "S", "Su"], free=(0, 1, 2), ws=(2,), simulate=(15 if lite else 80, 16)),
                 kitchen_sink(ctx, ["Ru", "R", "P", "Pu", "T", "Tu", "Su"], 14, 10 if lite else 40)]
         ctx.job("unwrap", gens=gens, invariants=invariants, ops=ops, cfg=cfg, nontrivial=has_ready)
@@ -700,9 +709,9 @@ def check_C06(ctx):
 
 
 def tag_consts(k, full):
-    vals = ["", "a", "a b", "x=y", "it's", '"q"', "skip", "unwrap-block", "to='2000-01-01 00:00:00'", "<", "l1\nl2", "C:\\dir\\", "\\", "Âπ¥Êú´„Åæ„Åß", "√©"]
+    vals = ["", "a", "a b", "x=y", "it's", '"q"', "skip", "unwrap-block", "to='2000-01-01 00:00:00'", "<", "l1\nl2", "C:\\dir\\", "\\", "Âπ¥Êú´„Åæ„Åß", "√©", " a", "a ", " ", "\n"]
     if not full:
-        vals = ["", "a", "a b", "x=y", "it's", '"q"', "skip", "l1\nl2", "<", "a\\", "Âπ¥Êú´„Åæ„Åß"]
+        vals = ["", "a", "a b", "x=y", "it's", '"q"', "skip", "l1\nl2", "<", "a\\", "Âπ¥Êú´„Åæ„Åß", " a", "a \n"]
     # a tab, a carriage return, a wide blank are ordinary word characters of the grammar (separators: space, line break)
     return {"TagNames": [Chars("rm"), Chars("tl"), Chars("rm\tc")] if full else [Chars("rm"), Chars("rm\u3000")],
             "AttrNames": [Chars(x) for x in (["name", "to", "skip", "c", "unwrap-block", "name\t", "\rskip"] if full else ["name", "skip", "c", "\tname"])],
